@@ -39,7 +39,9 @@ func c35v6(groups ...uint16) c35addr {
 	return x
 }
 
-func (a c35addr) dotted() string { return fmt.Sprintf("%d.%d.%d.%d", a.b[12], a.b[13], a.b[14], a.b[15]) }
+func (a c35addr) dotted() string {
+	return fmt.Sprintf("%d.%d.%d.%d", a.b[12], a.b[13], a.b[14], a.b[15])
+}
 
 // full is the uncompressed IPv6 spelling; upper selects upper-case hex digits.
 func (a c35addr) full(upper bool) string {
